@@ -649,10 +649,11 @@ FS = SimFS()
 
 
 class _SimWriter(io.StringIO):
-    def __init__(self, path):
+    def __init__(self, path, keep=False):
         super().__init__()
         self._path = path
-        FS.files[path] = b""
+        if not (keep and path in FS.files):
+            FS.files[path] = b""
 
     def write(self, s):
         sim = Sim.current
@@ -681,7 +682,12 @@ def sim_open(file, mode="r", *a, **kw):
         return builtins.open(file, mode, *a, **kw)
     p = FS.norm(file)
     sim = Sim.current
-    if "w" in mode:
+    if "x" in mode and p in FS.files:
+        raise FileExistsError(errno.EEXIST, "File exists (simulated)", p)
+    if "a" in mode:
+        w = _SimWriter(p, keep=True)
+        return w
+    if "w" in mode or "x" in mode:
         if sim is not None and sim.crash_open is not None:
             k = sim.ordinal("open_w")
             if k == sim.crash_open:
@@ -804,11 +810,33 @@ sys.modules["simworld_os_shim"] = _os_shim
 _model_memo = {}
 
 
+class _ModelProxy:
+    """The loaded scoring model; `predict_proba` is a fault site (explicit faults: site 'model', key [call ordinal])."""
+
+    def __init__(self, model):
+        self.__dict__["_m"] = model
+
+    def __getattr__(self, item):
+        return getattr(self.__dict__["_m"], item)
+
+    def predict_proba(self, *a, **kw):
+        sim = Sim.current
+        if sim is not None and sim.explicit:
+            k = sim.ordinal("model_call")
+            f = sim.explicit.get(sim.fault_label("model", (k,)))
+            if f is not None:
+                sim.fire(f, None)
+                raise RuntimeError("simulated failure of the scoring model")
+        return self.__dict__["_m"].predict_proba(*a, **kw)
+
+
 def _memo_load(f, *a, **kw):
     name = getattr(f, "name", None) if not isinstance(f, str) else f
     if name in _model_memo:
         return _model_memo[name]
     m = _real_joblib.load(f, *a, **kw)
+    if hasattr(m, "predict_proba"):
+        m = _ModelProxy(m)
     if name is not None:
         _model_memo[name] = m
     return m
